@@ -66,12 +66,14 @@ func (ls *LogScrubber) Write(b []byte) (n int, err error) {
 	n = len(b)
 	ls.buffer = append(ls.buffer, b...)
 	for {
-		i := bytes.LastIndexByte(ls.buffer, '\n')
+		// One line at a time, so that what a line is scrubbed to does not
+		// depend on which other lines arrived in the same Write.
+		i := bytes.IndexByte(ls.buffer, '\n')
 		if i == -1 {
 			return
 		}
-		fullLines := ls.buffer[:i+1]
-		_, err = ls.Output.Write(Scrub(fullLines))
+		fullLine := ls.buffer[:i+1]
+		_, err = ls.Output.Write(Scrub(fullLine))
 		if err != nil {
 			return
 		}
